@@ -2,6 +2,7 @@
 Protocol handlers for channels F (field pack/unpack), M (message pack/unpack) and O (tag sort).
 -/
 import Iso8583.Drivers.Tree
+import Iso8583.Spec.Coherent
 
 namespace Iso8583.Drivers.Fields
 open Iso8583 Iso8583.Drivers
@@ -37,6 +38,40 @@ def handle (toks : List String) : Option String :=
       | .ok (m, _) => "ok " ++ (treeOfMsg m).toStr
       | .err p => "err " ++ pathStr p
       | .panic => "panic"
+    | _, _ => "bad-op"
+  | ["K", "f", spec] =>
+    some <| match (Tree.ofString spec).bind fieldOfTree with
+    | some f => if f.coherent false then "1" else "0"
+    | none => "bad-op"
+  | ["K", "m", spec] =>
+    some <| match (Tree.ofString spec).bind msgSpecOfTree with
+    | some s => if s.coherent then "1" else "0"
+    | none => "bad-op"
+  | ["K", "fd", spec, val] =>
+    some <| match (Tree.ofString spec).bind fieldOfTree, (Tree.ofString val).bind valueOfTree with
+    | some f, some v => if f.inDomain v then "1" else "0"
+    | _, _ => "bad-op"
+  | ["T", "f", spec, val] =>
+    -- instance of the C01 field round-trip statement, evaluated on the model
+    some <| match (Tree.ofString spec).bind fieldOfTree, (Tree.ofString val).bind valueOfTree with
+    | some f, some v =>
+      if !(f.coherent false) || !(f.inDomain v) then "outside"
+      else match f.pack v with
+      | .ok bs =>
+        let tail : Bytes := match f with
+          | .prim _ => [0x31, 0xFF]
+          | .comp _ _ => [0x31, 0xFF]
+        match f.unpack (bs ++ tail) with
+        | .ok (v', read) =>
+          let okVal := (treeOfValue v').toStr == (treeOfValue (f.canon v)).toStr
+          let okRead := read == bs.length
+          let okRepack := match f.pack v' with | .ok bs' => bs' == bs | _ => false
+          if okVal && okRead && okRepack then "holds"
+          else "FAILS val=" ++ toString okVal ++ " read=" ++ toString okRead ++ " repack=" ++ toString okRepack
+              ++ " got=" ++ (treeOfValue v').toStr ++ " want=" ++ (treeOfValue (f.canon v)).toStr
+        | .err _ => "FAILS unpack-err"
+        | .panic => "FAILS unpack-panic"
+      | _ => "vacuous"
     | _, _ => "bad-op"
   | ["O", kind, tags] =>
     some <| match sortOfStr kind with
